@@ -5,13 +5,22 @@
 package main
 
 import (
+	"context"
+	"encoding/json"
 	"fmt"
 	"io"
 	"os"
+	"os/exec"
+	"path/filepath"
 	"runtime"
 	"runtime/debug"
+	"strconv"
 	"strings"
 	"sync"
+	"time"
+
+	"github.com/siglens/siglens/pkg/config"
+	log "github.com/sirupsen/logrus"
 
 	"github.com/siglens/siglens/pkg/ast/pipesearch"
 	"github.com/siglens/siglens/pkg/segment/query/iqr"
@@ -64,7 +73,7 @@ func (s *blockStreamer) Rewind() {
 	s.pos = 0
 	s.mu.Unlock()
 }
-func (s *blockStreamer) Cleanup()        {}
+func (s *blockStreamer) Cleanup()       {}
 func (s *blockStreamer) String() string { return "<c06 block streamer>" }
 
 type dpFlags struct {
@@ -377,14 +386,89 @@ func runPlannedStream(cfg vhlib.Config, sum *vhlib.Summary, rng *vhlib.Rng) {
 	}
 	cf.flush(sum, cfg.Out)
 	runPlannerCases(cfg, sum)
-	runRaceStream(cfg, sum, rng.Fork())
+}
+
+// The cloned chains run concurrently on shared option structs (known race); besides wrong
+// results this can end in a nil dereference inside a goroutine of fetchFromAnyStream, which
+// no caller can recover: the streams that build parallel chains therefore run in child processes.
+func childMain(kind string) {
+	os.Args = append(os.Args[:1], os.Args[2:]...)
+	log.SetLevel(log.PanicLevel)
+	cfg := vhlib.ParseFlags()
+	config.InitializeTestingConfig(filepath.Join(cfg.Out, "cfg") + "/")
+	config.SetNewQueryPipelineEnabled(true)
+	sum := vhlib.NewSummary("")
+	rng := vhlib.NewRng(cfg.Seed*104729 + 17)
+	switch kind {
+	case "planned":
+		runPlannedStream(cfg, sum, rng)
+	case "race":
+		runRaceStream(cfg, sum, rng)
+	}
+	sum.Write(cfg.Out)
+}
+
+func runChild(kind string, cfg vhlib.Config, sum *vhlib.Summary, attempts int) {
+	for a := 0; a < attempts; a++ {
+		dir := filepath.Join(cfg.Out, fmt.Sprintf("%s_%d", kind, a))
+		_ = os.MkdirAll(dir, 0o755)
+		ctx, cancel := context.WithTimeout(context.Background(), 30*time.Minute)
+		cmd := exec.CommandContext(ctx, os.Args[0], kind, "--tier", cfg.Tier, "--seed", strconv.FormatUint(cfg.Seed, 10), "--out", dir)
+		out, err := cmd.CombinedOutput()
+		cancel()
+		if err == nil {
+			b, rerr := os.ReadFile(filepath.Join(dir, "summary.json"))
+			var cs vhlib.Summary
+			if rerr != nil || json.Unmarshal(b, &cs) != nil {
+				sum.HarnessError(kind + " child: no summary")
+				return
+			}
+			sum.Evaluations += cs.Evaluations
+			sum.Distinct += cs.Distinct
+			for k, v := range cs.Distribution {
+				sum.Distribution[k] += v
+			}
+			for _, x := range cs.Samples {
+				sum.Sample(x)
+			}
+			for _, f := range cs.OracleFailures {
+				sum.Distribution["oracle_fail/"+f.Class]-- // Fail counts it again
+				sum.Fail(f.Class, f.Detail, f.Case)
+			}
+			sum.CaseFiles = append(sum.CaseFiles, cs.CaseFiles...)
+			sum.CasesToModel += cs.CasesToModel
+			sum.Notes = append(sum.Notes, cs.Notes...)
+			for _, e := range cs.HarnessErrors {
+				sum.HarnessError(e)
+			}
+			return
+		}
+		tail := string(out)
+		if i := strings.Index(tail, "panic:"); i >= 0 {
+			tail = tail[i:]
+		}
+		if len(tail) > 1500 {
+			tail = tail[:1500]
+		}
+		if strings.Contains(tail, "pkg/segment/query/processor") && strings.Contains(string(out), "fetchFromAnyStream") {
+			sum.Fail("parallel_chains_shared_options_race",
+				fmt.Sprintf("the process running the %s stream (parallel chains, GOMAXPROCS 4) died in a goroutine of fetchFromAnyStream: %s", kind, strings.SplitN(tail, "\n\n", 2)[0]),
+				map[string]interface{}{"stream": kind, "attempt": a, "panic": tail})
+			continue
+		}
+		sum.HarnessError(fmt.Sprintf("%s child failed: %v: %s", kind, err, tail))
+		return
+	}
+	if kind == "planned" {
+		sum.HarnessError("planned stream: the child process died in every attempt")
+	}
 }
 
 // known defect: the parallel chains are built from the same QueryAggregators, so the clones share
 // the option structs (lazy caches in *NumericExpr.GetFields, GroupByRequest set up by every
 // statsProcessor) and run concurrently; now and then a clone aggregates with half-initialised options
 func runRaceStream(cfg vhlib.Config, sum *vhlib.Summary, r *vhlib.Rng) {
-	iters := 500
+	iters := 800
 	if cfg.Thorough() {
 		iters = 6000
 	}
